@@ -388,4 +388,26 @@ theorem sqDist_eq_zero (p q : List Int) (hl : p.length = q.length) (h : sqDist p
       congr 1
       omega
 
+theorem owners1d_length (f : Array Int) : (owners1d f).length = f.size := by
+  rw [owners1d_eq_top]
+  unfold owners1dTop
+  cases h : f.size with
+  | zero => rfl
+  | succ m => simp
+
+/-- the pass along an axis applies, on every line, exactly the 1-D transform `dt1d` that the
+    harness also compares directly with `_distance.dt` -/
+theorem dt1d_getD (f : Array Int) (q : Nat) (hq : q < f.size) :
+    (dt1d f).getD q 0 = valueAt f q (ownerAt f q) := by
+  unfold dt1d ownerAt
+  have hl := owners1d_length f
+  have h1 : q < (owners1d f).length := by rw [hl]; exact hq
+  simp only [List.getD_eq_getElem?_getD, List.getElem?_map]
+  rw [List.getElem?_eq_getElem (by simp [hl, hq])]
+  simp [List.getElem?_eq_getElem h1]
+
+theorem map_range_getD (h : Nat → Int) (n q : Nat) (hq : q < n) : ((List.range n).map h).getD q 0 = h q := by
+  simp only [List.getD_eq_getElem?_getD, List.getElem?_map, List.getElem?_range hq, Option.map_some,
+    Option.getD_some]
+
 end Mahotas.C05
